@@ -446,6 +446,170 @@ def check_cdf_search_extent(ctx, F):
         ctx.unresolved('R4', 'ordered search over a cdf excludes the wrapping total-mass entry', 'stream::model::categorical', 'only %d searched decoders found (2 confirmed by reading)' % n, key='R4/cdf-search-extent/floor')
 
 
+def _payload_norm(t):
+    """`unwrap(in:P)` (from `?`) and `in:P.as Some.0` (from `if let`) both denote the payload of the option stored at P."""
+    def f(n):
+        if n and n[0] == 'unwrap' and isinstance(n[1], tuple) and n[1][0] == 'in':
+            return ('payload_of', n[1][1])
+        if n and n[0] == 'in' and len(n[1]) >= 2 and n[1][-1] == ('f', '0') and isinstance(n[1][-2], tuple) and n[1][-2][0] in ('as', 'dc') and n[1][-2][1] == 'Some':
+            return ('payload_of', n[1][:-2])
+        if n and n[0] == 'payload' and isinstance(n[1], tuple) and n[1][0] == 'in' and n[2] == 'Some':
+            return ('payload_of', n[1][1])
+        return None
+    return effects.rebuild(t, f)
+
+
+def _mod_affine(t, is_state):
+    """affine form of a counter modulo wrap-around: casts, constant masks and saturation are transparent."""
+    def f(n):
+        if not n:
+            return None
+        if n[0] == 'cast':
+            return n[2]
+        if n[0] == 'k' and n[1] in ('one', 'zero'):
+            return ('int', 1 if n[1] == 'one' else 0)
+        if n[0] == 'bin' and n[1] == 'BitAnd':
+            a, b = n[2], n[3]
+            if not sym.contains(a, is_state):
+                return b
+            if not sym.contains(b, is_state):
+                return a
+        if n[0] == 'bin' and n[1] in ('Add.w', 'Sub.w'):
+            return sym.mk_bin(n[1][:3], n[2], n[3])
+        if n[0] == 'call' and isinstance(n[1], str) and n[1].endswith(('::saturating_add', '::wrapping_add', '::saturating_sub', '::wrapping_sub')) and len(n[2]) == 2:
+            return sym.mk_bin('Add' if n[1].endswith('add') else 'Sub', n[2][0], n[2][1])
+        return None
+    return sym.affine(effects.rebuild(t, f))
+
+
+def check_size_hint_steps(ctx, F):
+    """Iterator::size_hint is consistent with Iterator::next for every crate-local iterator that overrides it.
+
+    `symbol_table()` is what every conversion to a generic / lookup model collects; the collectors reserve
+    `size_hint().0` entries up front, so a lower bound that is not a lower bound makes the conversion abort instead of
+    producing the equal model.  Two forms are recognised.
+      forward: size_hint = inner.size_hint()  and every path of next() pulls exactly one item from the same inner iterator.
+      counter: size_hint().0 = L(state); every path of next() that yields an item steps the state so that L drops by
+               exactly one, and a path that ends the iteration starts from L = 1 (compared as affine forms modulo wrap)."""
+    IT = 'core::iter::Iterator'
+    hints = {b.self_ty if hasattr(b, 'self_ty') else b.defpath.rsplit('::', 1)[0]: b for b in rules.impl_bodies(F, IT, 'size_hint') if '::tests::' not in b.defpath}
+    nexts = {b.defpath.rsplit('::', 1)[0]: b for b in rules.impl_bodies(F, IT, 'next')}
+    n = 0
+    for impl, sh in sorted(hints.items()):
+        nx = nexts.get(impl)
+        key = 'R10/size-hint-step/' + impl
+        role = 'size_hint().0 decreases by one with every item next() yields'
+        if nx is None:
+            ctx.unresolved('R10', role, impl, 'next() of the same impl not found', key=key)
+            continue
+        n += 1
+        ctx.touch(sh); ctx.touch(nx)
+        ev_s, ps = rules.evaluate(sh)
+        ev_n, pn = rules.evaluate(nx)
+        ps = [r for r in ps or [] if r.end == 'return']
+        pn = [r for r in pn or [] if r.end == 'return']
+        if not ps or not pn:
+            ctx.unresolved('R10', role, impl, 'bodies not evaluated', key=key)
+            continue
+        # ---- forward form
+        if len(ps) == 1 and ps[0].ret[0] == 'call' and ps[0].ret[1].endswith('Iterator::size_hint'):
+            inner = ps[0].ret[2][0]
+            bad = None
+            for r in pn:
+                pulls = [e for e in r.events if e['kind'] == 'call' and e['callee'].endswith('Iterator::next') and e.get('args_val') and _strip_view(e['args_val'][0]) == _strip_view(inner)]
+                if len(pulls) != 1:
+                    bad = 'a path of next() pulls %d items from %s' % (len(pulls), sym.show(inner))
+            if bad:
+                ctx.bad('R10', role, impl, 'size_hint forwards to %s but %s' % (sym.show(inner), bad), key=key, loc=rules.loc(nx))
+            else:
+                ctx.ok('R10', role, impl, 'forwards to %s; each of %d paths of next() pulls exactly one item from it' % (sym.show(inner), len(pn)), key=key)
+            continue
+        # ---- counter form
+        is_state = lambda x: isinstance(x, tuple) and x and x[0] in ('in', 'payload_of')
+        cases = []   # (option path or None, variant, lower term)
+        for r in ps:
+            if not (r.ret[0] == 'agg' and r.ret[1] == 'tuple'):
+                cases = None
+                break
+            lower = _payload_norm(rules.inline_pure(F, r.ret[2][0]))
+            variant, opt = None, None
+            for t, v, _ in r.preds:
+                dv = sym.discr_variant(t, v)
+                if dv and t[0] == 'discr' and t[1][0] == 'in':
+                    variant, opt = dv, t[1][1]
+            cases.append((opt, variant, lower))
+        if not cases:
+            ctx.unresolved('R10', role, impl, 'size_hint does not return a literal pair', key=key)
+            continue
+
+        def L_of(store_read, pre):
+            """lower bound as a term, for the pre-state (pre=True) or for the state a path of next() leaves."""
+            for opt, variant, lower in cases:
+                if opt is None:
+                    if pre:
+                        return lower
+                    m = {x: store_read(x[1]) for x in sym.subterms(lower) if isinstance(x, tuple) and x and x[0] == 'in' and x[1][:2] == (1, 'deref')}
+                    return _payload_norm(sym.subst(lower, m))
+                if pre:
+                    if variant == 'Some':
+                        return lower
+                    continue
+                v = store_read(opt)
+                if v == ('in', opt):
+                    if variant == 'Some':
+                        return lower
+                    continue
+                if v[0] == 'agg' and isinstance(v[1], tuple) and v[1][-1] == variant:
+                    if variant == 'Some':
+                        return _payload_norm(sym.subst(lower, {('payload_of', opt): _payload_norm(v[2][0])}))
+                    return lower
+            return None
+        verdict = []
+        for r in pn:
+            yields = r.ret[0] == 'agg' and isinstance(r.ret[1], tuple) and r.ret[1][-1] == 'Some'
+            if not yields:
+                continue
+            pre = L_of(None, True)
+            post = L_of(lambda path: ev_n.final_read(r, path), False)
+            if pre is None or post is None:
+                verdict.append(('unres', 'state after next() not matched with a case of size_hint'))
+                continue
+            # equalities the path knows (e.g. symbol == max on the last item)
+            eqs = {}
+            for t, v, _ in r.preds:
+                t = _payload_norm(t)
+                if t[0] == 'bin' and t[1] == 'Eq' and v:
+                    a, b = t[2], t[3]
+                    if sym.contains(a, lambda x: x and x[0] == 'payload_of'):
+                        eqs[a] = b
+                    elif sym.contains(b, lambda x: x and x[0] == 'payload_of'):
+                        eqs[b] = a
+            pre_s = sym.subst(pre, eqs)
+            post_s = sym.subst(post, eqs)
+            a, b = _mod_affine(pre_s, is_state), _mod_affine(post_s, is_state)
+            if a is None or b is None:
+                verdict.append(('unres', 'bound is not affine'))
+                continue
+            d = sym.affine_sub(a, b)
+            if not d[0] and d[1] == 1:
+                verdict.append(('ok', ''))
+            elif not d[0]:
+                verdict.append(('bad', 'a path of next() that yields an item takes the bound from [%s] to [%s] (affine forms modulo wrap-around): it changes by %+d instead of -1, so size_hint().0 is not a lower bound of the remaining items and collectors reserve that many entries' % (
+                    sym.affine_str(a)[:160], sym.affine_str(b)[:160], -d[1])))
+            else:
+                verdict.append(('unres', 'difference %s is not a constant' % sym.affine_str(d)))
+        if not verdict:
+            ctx.unresolved('R10', role, impl, 'next() has no yielding path', key=key)
+        elif any(v[0] == 'bad' for v in verdict):
+            ctx.bad('R10', role, impl, [v[1] for v in verdict if v[0] == 'bad'][0], key=key, loc=rules.loc(sh))
+        elif any(v[0] == 'unres' for v in verdict):
+            ctx.unresolved('R10', role, impl, [v[1] for v in verdict if v[0] == 'unres'][0], key=key)
+        else:
+            ctx.ok('R10', role, impl, '%d yielding path(s) of next(), each lowers the bound by exactly one' % len(verdict), key=key)
+    if n < 5:
+        ctx.unresolved('R10', 'size_hint().0 decreases by one with every item next() yields', 'crate', 'only %d iterators with a custom size_hint found (5 confirmed by reading)' % n, key='R10/size-hint-step/floor')
+
+
 def facts_callee(t):
     from vlib.facts import callee
     c = callee(t)
@@ -456,6 +620,7 @@ def run(ctx):
     F = ctx.F
     check_quantizer_boundaries(ctx, F)
     check_cdf_search_extent(ctx, F)
+    check_size_hint_steps(ctx, F)
     check_views(ctx, F)
     check_forwarding(ctx, F)
     check_pass_through(ctx, F)
